@@ -19,6 +19,15 @@ inductive Ctl (σ ρ : Type) where
   | panic (site : String)
   deriving Repr, DecidableEq, Inhabited
 
+/-- one arm of the `match index { … }` of a derived by-key function, as `extract/gen_derive.read_arm` reads it off the
+derive's output (`Gen/DeriveArms.lean`): `Err(Traversal::Access(0, msg).into())`, or the chain
+`G.and_then(|item| child(item, keys, …))[.and_then(|depth| val::<k>(depth).map_err(Invalid(0, ·)))]` with `G` the plain
+place `Ok(&[mut] self.f)` (`get = none`) or the accessor call `acc[m]::<k, _>(…).map_err(Access(0, ·))` -/
+inductive ArmShape where
+  | deny (msg : String)
+  | access (get : Option Nat) (validate : Option Nat)
+  deriving Repr, DecidableEq, Inhabited
+
 /-- floor(log10 n) for n > 0 -/
 def ilog10 (n : Nat) : Nat :=
   if h : n < 10 then 0 else 1 + ilog10 (n / 10)
